@@ -23,13 +23,13 @@ claim('C15', 'E2', 'exhaustive enumeration of filter trees (depth-bounded, all 1
       'Every filter tree up to the stated depth/arity over the operator, key and value pools, with every tag map over the same pool, is evaluated on the real code and compared with an independent reference (math/big exact numerals).',
       'Key/value pools are finite (edge numerals, empty strings, absent keys); trees up to depth 2-3.')
 claim('C33', 'E2', 'exhaustive enumeration of all byte strings over a frame alphabet up to a length bound (totality) and of publisher-built frames (round trip) on the real PUB/SUB decoders',
-      'Every byte string over the framing alphabet up to the stated length is decoded by the real extractPushData / map-broker parseMessage (no panic allowed), and every frame built exactly as the Go publisher builds it over small payload/offset/epoch domains must decode to its inputs.',
+      'Every byte string over the framing alphabet up to the stated length is decoded by the real extractPushData / map-broker parseMessage (no panic allowed), the same decoders on every sequence of <= 5-6 tokens over the separators and the numerals around 2^31, 2^32, 2^63 and 2^64 after each frame prefix, and every frame built exactly as the Go publisher builds it over small payload/offset/epoch domains must decode to its inputs.',
       'Go-side framing only; the Lua builders are represented by a Go transcription of their format (no Redis, no Lua interpreter in the loop).')
 claim('C34', 'E2', 'exhaustive enumeration of channel names (bounded length over a brace/dot/colon alphabet) x prefixes x partitioning modes on the real key builders against an independent hash-tag + CRC16 slot function',
       'For every channel name up to the stated length, prefix and partitioning configuration, all keys and the PUB/SUB channel of each script call built by the real Redis broker / map broker / presence key builders are hashed by an independent Redis-cluster slot function and must share one slot; extractChannel must invert messageChannelID.',
       'Key builders are driven in-package without a Redis connection; which keys form one script call is transcribed from the call sites.')
 claim('C35', 'E2+E1', 'complete enumeration of every precomputed partition count, tag and cluster size against an independent CRC16/XMODEM and Redis slot allocation; stateless DFS (preemption bound 2) over 2-3 concurrent first callers of a cold package with scheduling points at package-level variables',
-      'Complete: every bundled partition count x every cluster size up to it, every tag; slots distinct, equal to an independent CRC16 implementation, per-node counts differ by at most one. Concurrent variant: the package-level variables are re-initialised before every execution and 2-3 threads call FindTags / TagSlot / SlotToNode at once; every interleaving within the bound must give the reference slots.',
+      'Complete: every bundled partition count x every cluster size up to it, every tag, every ordered pair of lookups with the first table re-checked after the second (a table never changes under its holder); slots distinct, equal to an independent CRC16 implementation, per-node counts differ by at most one. Concurrent variant: the package-level variables are re-initialised before every execution and 2-3 threads call FindTags / TagSlot / SlotToNode at once; every interleaving within the bound must give the reference slots.',
       'Two slot-allocation models (even split and redis-cli --cluster create) stand in for a real cluster.')
 
 E1_NOTE = 'One node (Memory broker/presence), 1-2 connections, 2-3 concurrent operations; scheduling points are lock/atomic/channel/timer operations plus harness doubles; verification-build constants (lock tables) shrunk; Redis paths not executed.'
@@ -37,7 +37,7 @@ def e1(i, what, text):
     claim(i, 'E1', 'stateless DFS over thread interleavings of the real Node/Client/Hub code under a controlled scheduler (preemption + timer-first + environment-answer deviations bounded, HB-state caching): ' + what, text, E1_NOTE)
 e1('C04', 'client/server subscribe, unsubscribe, disconnect with sync/async callbacks and the 5 s wait gate', 'Every interleaving up to the bound of the listed operation threads on one connection; after settling a marker publication must reach the connection iff it reports itself subscribed, and the hub must hold exactly one generation-matched routing entry iff subscribed.')
 e1('C05', 'close (Disconnect / Node.Disconnect / transport close / write error / slow consumer / stale timer) placed at every point of connect with server-side subscriptions, subscribe, map subscribe (state, stream, live, ephemeral), shared-poll subscribe and track, presence tick', 'Every close point within the bound; after settling the node must hold no hub, routing, presence or client-state entry of the closed connection and the connection/subscription gauges must be back to their earlier values.')
-e1('C06', 'presence ticks against subscribe/unsubscribe/close', 'Every interleaving within the bound; at quiescence the channel presence contains the connection iff it holds a subscription with presence, and presence stats count distinct clients/users.')
+e1('C06', 'presence ticks against subscribe/unsubscribe/close, one channel (connops) and three presence channels of one connection with two of them ending during one tick (presencemulti, delay bound 2-3)', 'Every interleaving within the bound; at quiescence the channel presence contains the connection iff it holds a subscription with presence, and presence stats count distinct clients/users.')
 e1('C07', 'subscribe completion against unsubscribe/disconnect, observed by a second subscriber', 'Every interleaving within the bound; the observer\'s join/leave pushes for the actor must alternate starting with join, end consistently with the final subscription state, and match the number of established/ended subscriptions.')
 e1('C08', 'connect, alive ticks, unsubscribe, server disconnect, transport close', 'Every interleaving within the bound; the callback log must show disconnect at most once and after connect, no alive after disconnect and one unsubscribe callback per established subscription that ended. Node shutdown: a connect racing Shutdown (delay-bounded schedule exploration under two default thread orders, oldest-first and newest-first) and connection attempts after Shutdown through the generic API, the SSE handler and the HTTP-stream handler must never end up connected (WebSocket upgrade path not driven).')
 e1('C10', 'publications / joins of other connections against subscribe and unsubscribe (client and server side, positioned and not)', 'Every interleaving within the bound; on the connection\'s frame log no publication/join/leave for the channel may appear outside a subscription bracket. Harness bracketbatch adds per-channel batching (MaxSize / MaxDelay / both / FlushLatestPublication / none) x ReplyWithoutQueue x positioned on the client and server paths with the virtual clock driving the batch timers.')
@@ -47,14 +47,14 @@ claim('C02', 'E2', 'exhaustive enumeration of channel histories (publish/remove/
 claim('C03', 'E2', 'exhaustive enumeration of channel histories x cache-recovery probes (client and server-forced, cache-empty handler variants, delta) on the real Node against a reference log',
       'Every history up to the stated depth x every probe; at most one publication (unless delta), it is the newest both filters admit, recovered exactly when the newest publication is in history or the client holds the position.',
       'One channel, Memory broker, depth <= 4-5.')
-claim('C43', 'E2', 'exhaustive enumeration of histories x history-command parameters and of presence membership configurations on the real client command handlers',
-      'Every history (depth <= 3-4) x since x limit x reverse x HistoryMaxPublicationLimit; replies must respect the limit, equal Node.History for the effective filter, reject reverse with since offset 0; presence/presence_stats replies equal the node-level results for all 125 membership configurations.',
+claim('C43', 'E2+E1', 'exhaustive enumeration of histories x history-command parameters and of presence membership configurations on the real client command handlers; stateless DFS (preemption bound 1-2) over a Node.History and a client history command overlapping under UseSingleFlight',
+      'Every history (depth <= 3-4) x since x limit x reverse x HistoryMaxPublicationLimit; replies must respect the limit, equal Node.History for the effective filter, reject reverse with since offset 0; presence/presence_stats replies equal the node-level results for all 125 membership configurations. Overlap variant: limits {-1,0,1,2}^2 x HistoryMaxPublicationLimit {0,2}; each of two overlapping reads must return what it returns alone.',
       'Memory broker / presence manager only.')
-claim('C09', 'E2+E1', 'exhaustive enumeration of command sequences (length <= 3-4 over 15 methods x ids, JSON and Protobuf, command and frame entry points, malformed frames) on the real dispatch code; async handler completions explored by the scheduler',
+claim('C09', 'E2+E1', 'exhaustive enumeration of command sequences (length <= 3-4 over 16 methods x ids, JSON and Protobuf, command and frame entry points incl. one that ignores the reader verdict like the emulation / SSE / HTTP-stream handlers, malformed frames) on the real dispatch code; async handler completions explored by the scheduler',
       'Every command sequence up to the stated length through HandleCommand / HandleReadFrame; before connect any other command must close with bad request without handler invocations, every id gets exactly one reply unless closed, unsolicited pong closes.',
       'Handlers complete synchronously except in the async variants (bound 1-2).')
 claim('C17', 'E2', 'exhaustive enumeration of operation histories (publish/history/remove/advance over a virtual clock, depth-bounded, 1-2 channels) on the real Memory broker against a slice + top + epoch model',
-      'Every history up to depth 4-6 (8 for the small alphabet) with all since/limit/reverse probes at the end; offsets, history content, top and epoch must match the model; expiry instants are constrained only as far as the statement fixes them.',
+      'Every history up to depth 4-6 (8-11 for the small alphabets, one of them with a metadata TTL shorter than the history TTL followed by a long one) with all since/limit/reverse probes at the end; offsets, history content, top and epoch must match the model; expiry instants are constrained only as far as the statement fixes them.',
       'Bare MemoryBroker (no Node); TTL tolerance set model where calls ask for different TTLs.')
 claim('C19', 'E2', 'exhaustive enumeration of publish histories (idempotency keys x versions incl. 2^53+1 x version epochs x result-TTL expiry) on the real Memory stream broker and Memory map broker against the stated rule',
       'Every history up to depth 3-6; verdict, suppress reason, returned position, handler calls, history and map state after every step must match the reference rule.',
@@ -96,7 +96,7 @@ claim('C14', 'E2+E1', 'exhaustive enumeration of payload/tag sequences x subscri
 claim('C16', 'E2+E1', 'exhaustive enumeration of (server filter, client filter) pairs x publication tags x delivery paths on a real node, plus scheduler exploration of subscribe racing a publication',
       'All 9 filter pairs x tag sequences up to length 3-5 on live positioned / non-positioned, stream recovery, cache recovery, map state page, map stream page, map live transition and streamless paths; a delivered publication must be admitted by both filters; a server-filter change on a map subscription must invalidate it.',
       'No delta subscriptions (stated in the property).')
-claim('C40', 'E1', 'stateless DFS over worker / submitter / closer interleavings of the real dissolver (2 workers) with every failure pattern of 2-3 jobs',
+claim('C40', 'E1+E2', 'stateless DFS over worker / submitter / closer interleavings of the real dissolver (1-2 workers) with every failure pattern of 2-3 jobs; exhaustive Add / Remove / Close sequences (length <= 14-17) on its job queue against a slice model',
       'Every interleaving up to deviation bound 2-3; every submitted job runs until it succeeds, never after success, never when dequeued after Close began, late submits are rejected.',
       'dissolve.New(2); the interpretation of "no job is executed after the queue is closed" is the one written in DESIGN.md (a job already dequeued cannot be recalled).')
 claim('C42', 'E2+E1', 'exhaustive get/put sequences (with reslicing / appending / replacing mutations before put) over length classes on the real pools, plus two-thread interleavings on the deterministic pool',
@@ -116,7 +116,7 @@ claim('C36', 'E2', 'exhaustive enumeration of event orders (up to 4-5 events: ti
       'Expiry times are unix seconds, so the reference model has a 1 s (+ presence interval) undetermined window in which either outcome is accepted.')
 
 e1('C22', 'a protocol-following map client (state pages, stream pages, live transition or recovery join; page size 1-2) against a writer thread doing up to 3 of publish / remove / clear / key expiry / stream expiry on the real node and Memory map broker', 'Every interleaving within the bound over ephemeral / recoverable / persistent modes, StreamSize 2 and 100, tags filter on/off; at quiescence the client map equals the broker state restricted to admitted keys, or the client was told (unrecoverable position / insufficient state / state invalidated); recovered=true never hides an undelivered change.')
-e1('C38', 'channel medium options (KeepLatestPublication, SharedPositionSync; unexported queue / broadcast delay reported separately) with two broadcasts, position checks with stale / valid positions, medium shutdown on last unsubscribe, racing subscribers', 'Every interleaving within the bound (0-2) of six scenarios with at most two subscribers; per positioned subscriber the C01 offset oracle, the MaxUint64 sentinel never reaches a client, a detected loss ends every positioned subscriber, non-positioned subscribers are untouched. Harness pubqueuex adds every operation sequence (length <= 12-14 over Add / Remove / Close, initial capacities 1-3) on the medium ring-buffer queue against a slice model (FIFO across grow and shrink steps, Len / Size accounting).')
+e1('C38', 'channel medium options (KeepLatestPublication, SharedPositionSync; unexported queue / broadcast delay reported separately) with two broadcasts, position checks with stale / valid positions, medium shutdown on last unsubscribe, racing subscribers', 'Every interleaving within the bound (0-2) of six scenarios with at most two subscribers; per positioned subscriber the C01 offset oracle, the MaxUint64 sentinel never reaches a client, a detected loss ends every positioned subscriber, non-positioned subscribers are untouched. Harness pubqueuerace runs the medium writer loop (Wait, Remove until empty) against 1-2 producers within preemption bound 2-3 (nothing may be left in the open queue while the writer waits). Harness pubqueuex adds every operation sequence (length <= 12-14 over Add / Remove / Close, initial capacities 1-3) on the medium ring-buffer queue against a slice model (FIFO across grow and shrink steps, Len / Size accounting).')
 
 NA = {
  'C18': 'needs a Redis server (or faithful emulator) to execute the Redis broker; none exists in the sealed sandbox, so Redis-vs-Memory agreement cannot be explored',
